@@ -18,6 +18,8 @@
 (*           "impl_D9"   as coded on NumPy >= 2: the call helper raises (np.product is gone),    *)
 (*                       so no record is ever produced                                            *)
 (*           "split_ge"  seeded deviation: splits at gaps >= max_N_span and forgets the gap       *)
+(*           "tf_no_overflow"  seeded deviation: the record's TF tag leaves out the fragments    *)
+(*                       refused because of max_associated_fragments (the source reads count them)*)
 EXTENDS Integers, FiniteSets, Sequences, TLC, Util
 
 CONSTANTS Pos,        \* reference positions 1..P (a set; must be an interval starting at 1)
@@ -25,6 +27,7 @@ CONSTANTS Pos,        \* reference positions 1..P (a set; must be an interval st
           Quals,      \* subset of {10, 20, 30}
           MaxReads,
           Refs,       \* set of reference sequences (Seq over {"A","C","G","T"}) of length P
+          Cap,        \* max_associated_fragments (0 stands for None): further fragments are refused and counted as overflow
           MaxNs1,     \* values of max_N_span + 1; 0 stands for None (a .cfg cannot hold -1)
           Variant
 
@@ -144,21 +147,25 @@ VARIABLES ref,      \* the reference sequence
           strand,   \* molecule strand
           nfrag,    \* number of fragments (a fragment has one or two reads)
           nreads,
+          overflow, \* fragments refused by max_associated_fragments (Molecule.overflow_fragments)
           open,     \* TRUE when the last fragment can still take a second read
           conf,     \* get_base_confidence_dict: position -> observations in arrival order
           pc,       \* "collect" | "call" | "cigar" | "walk" | "done"
           calls,    \* position -> called base
           cigar, ix, refpos, refstart, refend, pCigar, pSeq,     \* generate_partial_reads locals
           recs, raised
-vars == <<ref, maxN, strand, nfrag, nreads, open, conf, pc, calls, cigar, ix, refpos, refstart, refend, pCigar, pSeq, recs, raised>>
+vars == <<ref, maxN, strand, nfrag, nreads, overflow, open, conf, pc, calls, cigar, ix, refpos, refstart, refend, pCigar, pSeq, recs, raised>>
 
-MolTags == [SM |-> "cell", RX |-> "UMI", DS |-> 7, TF |-> nfrag]
+(* the molecule's fragment count as written on its source reads by write_tags: associated + overflow *)
+MolTags == [SM |-> "cell", RX |-> "UMI", DS |-> 7, TF |-> nfrag + overflow]
+(* write_tags_to_psuedoreads *)
+RecTags == [SM |-> "cell", RX |-> "UMI", DS |-> 7, TF |-> IF Variant = "tf_no_overflow" THEN nfrag ELSE nfrag + overflow]
 
 Reads == UNION { { [ p \in s .. e |-> <<bb[p], q>> ] : bb \in [ s .. e -> ReadBases ], q \in Quals }
                  : <<s, e>> \in { x \in Pos \X Pos : x[1] <= x[2] } }
 
 Init == /\ ref \in Refs /\ maxN \in { x - 1 : x \in MaxNs1 } /\ strand \in BOOLEAN
-        /\ nfrag = 0 /\ nreads = 0 /\ open = FALSE
+        /\ nfrag = 0 /\ nreads = 0 /\ overflow = 0 /\ open = FALSE
         /\ conf = [ p \in Pos |-> <<>> ]
         /\ pc = "collect" /\ calls = <<>> /\ cigar = <<>> /\ ix = 1
         /\ refpos = 0 /\ refstart = 0 /\ refend = 0 /\ pCigar = <<>> /\ pSeq = <<>>
@@ -169,15 +176,19 @@ AddRead(r, second) ==
     /\ pc = "collect" /\ nreads < MaxReads
     /\ second => open
     /\ nreads' = nreads + 1
-    /\ nfrag' = IF second THEN nfrag ELSE nfrag + 1
-    /\ open' = ~second
-    /\ conf' = [ p \in Pos |-> IF p \in DOMAIN r THEN Append(conf[p], r[p]) ELSE conf[p] ]
+    /\ IF ~second /\ Cap > 0 /\ nfrag >= Cap
+       THEN \* Molecule._add_fragment: overflow_fragments += 1; raise OverflowError - the fragment (both mates) stays out
+            /\ overflow' = overflow + 1 /\ open' = FALSE /\ UNCHANGED <<nfrag, conf>>
+       ELSE /\ nfrag' = IF second THEN nfrag ELSE nfrag + 1
+            /\ open' = ~second
+            /\ conf' = [ p \in Pos |-> IF p \in DOMAIN r THEN Append(conf[p], r[p]) ELSE conf[p] ]
+            /\ UNCHANGED overflow
     /\ UNCHANGED <<ref, maxN, strand, pc, calls, cigar, ix, refpos, refstart, refend, pCigar, pSeq, recs, raised>>
 
 EndCollect ==
     /\ pc = "collect" /\ nfrag > 0
     /\ pc' = "call"
-    /\ UNCHANGED <<ref, maxN, strand, nfrag, nreads, open, conf, calls, cigar, ix, refpos, refstart, refend, pCigar, pSeq, recs, raised>>
+    /\ UNCHANGED <<ref, maxN, strand, nfrag, nreads, overflow, open, conf, calls, cigar, ix, refpos, refstart, refend, pCigar, pSeq, recs, raised>>
 
 (* obs = {position: phredscores_to_base_call(probs) ...} *)
 CallAll ==
@@ -186,7 +197,7 @@ CallAll ==
        THEN /\ raised' = TRUE /\ pc' = "done" /\ UNCHANGED calls      \* AttributeError: numpy has no attribute 'product'
        ELSE /\ calls' = [ p \in Covered(conf) |-> CallD(conf[p]) ]
             /\ pc' = "cigar" /\ UNCHANGED raised
-    /\ UNCHANGED <<ref, maxN, strand, nfrag, nreads, open, conf, cigar, ix, refpos, refstart, refend, pCigar, pSeq, recs>>
+    /\ UNCHANGED <<ref, maxN, strand, nfrag, nreads, overflow, open, conf, cigar, ix, refpos, refstart, refend, pCigar, pSeq, recs>>
 
 (* get_CIGAR: M for every aligned block, N between consecutive blocks *)
 RECURSIVE CigarOf(_, _)
@@ -200,7 +211,7 @@ BuildCigar ==
     /\ cigar' = CigarOf(BlocksOf(Covered(conf)), -1)
     /\ refpos' = MinOf(Covered(conf)) /\ refstart' = MinOf(Covered(conf))
     /\ ix' = 1 /\ pc' = "walk"
-    /\ UNCHANGED <<ref, maxN, strand, nfrag, nreads, open, conf, calls, refend, pCigar, pSeq, recs, raised>>
+    /\ UNCHANGED <<ref, maxN, strand, nfrag, nreads, overflow, open, conf, calls, refend, pCigar, pSeq, recs, raised>>
 
 (* the record get_dedup_reads / get_consensus_read build from one yield of generate_partial_reads *)
 MRef(start, ops) == LET pos == MPositions(ops, 1, start) IN [ k \in DOMAIN pos |-> ref[pos[k]] ]
@@ -208,7 +219,7 @@ Record(rs, re, ops, bases) ==
     [start |-> rs, cigar |-> ops, seq |-> bases, nq |-> Len(bases),
      md |-> IF Variant = "impl_D10" THEN MDOf(SubSeq(ref, rs, re - 1), bases, 1, 0)     \* reference.fetch(chrom, start, end)
             ELSE MDOf(MRef(rs, ops), bases, 1, 0),
-     rev |-> strand, tags |-> MolTags]
+     rev |-> strand, tags |-> RecTags]
 
 (* one iteration of `for operation, amount in CIGAR` *)
 StepOp ==
@@ -228,13 +239,13 @@ StepOp ==
            /\ pSeq' = pSeq \o [ k \in 1 .. o.n |-> calls[refpos + k - 1] ]               \* extract_stretch_from_dict
            /\ UNCHANGED recs
     /\ ix' = ix + 1
-    /\ UNCHANGED <<ref, maxN, strand, nfrag, nreads, open, conf, pc, calls, cigar, raised>>
+    /\ UNCHANGED <<ref, maxN, strand, nfrag, nreads, overflow, open, conf, pc, calls, cigar, raised>>
 
 Finish ==
     /\ pc = "walk" /\ ix > Len(cigar)
     /\ recs' = Append(recs, Record(refstart, refend, pCigar, pSeq))
     /\ pc' = "done"
-    /\ UNCHANGED <<ref, maxN, strand, nfrag, nreads, open, conf, calls, cigar, ix, refpos, refstart, refend, pCigar, pSeq, raised>>
+    /\ UNCHANGED <<ref, maxN, strand, nfrag, nreads, overflow, open, conf, calls, cigar, ix, refpos, refstart, refend, pCigar, pSeq, raised>>
 
 Next == \/ \E r \in Reads, second \in BOOLEAN : AddRead(r, second)
         \/ EndCollect \/ CallAll \/ BuildCigar \/ StepOp \/ Finish
